@@ -160,9 +160,9 @@ ObjSchema(ctx, dir, cls, seen) ==
       \* (which matters for unevaluatedProperties: an absent keyword evaluates nothing)
       main   == << <<"type", {"object"}>>, <<"properties", props>>, <<"required", required>> >>
                 \o (IF Len(addl) = 0 THEN <<>> ELSE << <<"additionalProperties", addl>> >>)
-                \o <<
-                   <<"patternProperties", [i \in DOMAIN pats |-> <<pats[i].pat, valSchema(pats[i])>>]>>,
-                   <<"dependentRequired", depreq>> >>
+                \o (IF pats = <<>> THEN <<>>
+                    ELSE << <<"patternProperties", [i \in DOMAIN pats |-> <<pats[i].pat, valSchema(pats[i])>>]>> >>)
+                \o (IF depreq = <<>> THEN <<>> ELSE << <<"dependentRequired", depreq>> >>)
       flatSchemas == [i \in DOMAIN flats |-> SchemaOf(ctx, dir, FType(flats[i]), flats[i].cons, seen)]
   IN IF flats = <<>> THEN main
      ELSE \* deviation "flatopen" is the repaired intent: the owner's branch must leave the keys of the
